@@ -153,6 +153,26 @@ def gen_feature_program(rng, feature):
         want = {'r%d' % i: {'g': c['g'] if c['g'] is not None else 'hello', 'k': c['h']['k'] if c['h'] is not None else 1}
                 for i, c in enumerate(calls)}
         return {'yaml': '\n'.join(y) + '\n', 'oracle': {}, 'meta': {'feature': feature, 'want': want}}
+    if feature == 'nullflow':
+        # a value set before a fork, re-published in ONE branch as null / false / 0 / '' / an empty dict or list (values a
+        # careless "is it there?" test takes for missing) while the other branch merely inherits the old value; the
+        # branches end separately or meet at a join.  Prescribed: the re-published value wins everywhere, in every order.
+        new = rng.choice(['null', 'false', '0', "''", '<% dict() %>', '<% list() %>'])
+        want = {'null': None, 'false': False, '0': 0, "''": '', '<% dict() %>': {}, '<% list() %>': []}[new]
+        join = rng.random() < 0.5
+        jinja = rng.random() < 0.3
+        y = ["version: '2.0'", 'main:', '  output:', '    x: <% $.x %>', '    y: <% $.y %>', '  tasks:',
+             '    t0:', '      action: verif.act tag="t0" value=1', '      publish:', '        x: <% task().result %>', '        y: kept',
+             '      on-success: [a1, b1]',
+             '    a1:', '      action: verif.act tag="a1"', '      on-success: [a2]',
+             '    a2:', '      action: verif.act tag="a2"', '      publish:', '        x: %s' % new]
+        if join:
+            y.append('      on-success: [tj]')
+        y += ['    b1:', '      action: verif.act tag="b1"', '      on-success: [b2]', '    b2:', '      action: verif.act tag="b2"']
+        if join:
+            y += ['      on-success: [tj]', '    tj:', '      join: all', '      action: verif.act tag="tj"', '      publish:',
+                  ('        seen: "{{ _.x }}"' if jinja else '        seen: <% $.x %>')]
+        return {'yaml': '\n'.join(y) + '\n', 'oracle': {}, 'meta': {'feature': feature, 'want_x': want, 'join': join}}
     if feature == 'compose':
         return gen_composed_program(rng)
     raise ValueError(feature)
@@ -442,6 +462,13 @@ def final_oracles(d, v, meta):
     fails = []
     f = meta['feature']
     root = v['wf']['R']
+    if f == 'nullflow':
+        out = root['output'] or {}
+        if root['state'] != 'SUCCESS' or out.get('x', 'absent') != meta['want_x'] or out.get('y') != 'kept':
+            fails.append({'property': 'C02', 'signature': 'nullflow:stale-value-in-output',
+                          'what': 'workflow %s output %s; x was re-published as %r in one branch, y is "kept"' % (
+                              root['state'], json.dumps(out, sort_keys=True), meta['want_x'])})
+        return fails
     if f == 'defaults':
         if root['state'] != 'SUCCESS' or (root['output'] or {}) != meta['want']:
             fails.append({'property': 'C02', 'signature': 'defaults:wrong-input-seen',
